@@ -12,8 +12,10 @@ PROP = dict(
                "flag+environment variable; with and without documented default), every presence combination of flag / environment variable / second "
                "config file / first config file crossed with the placement of the literal and of ${VAR} in each source (plain, whole value, infix, "
                "unset variable whole and infix, a variable whose text is itself ${V1}, inside a list element, inside a map value, an explicit zero "
-               "value in a file) and checks on the model that nothing of a losing source shows, the winner's text shows in full, the default applies "
-               "only when no source defines the setting, references to set variables are replaced exactly once, references to unset variables stay, "
+               "value in a file, and text with a dollar that is NOT a ${NAME} reference - bare $NAME set and unset, $$, $5, a trailing $, an "
+               "unterminated ${, an empty ${}, $(X) - next to well-formed references, as scalar, list element and map value, through flag, "
+               "variable and files) and checks on the model that nothing of a losing source shows, the winner's text shows in full, the default applies "
+               "only when no source defines the setting, references to set variables are replaced exactly once, references to unset variables stay, every other piece of text with a dollar is in the result exactly as written, "
                "non-string kinds are taken verbatim, and the validation verdict is the validity of the applied value. Each vector is then executed "
                "on the real loader: args, environment and two YAML files are generated for ALL settings of the class at once (100 settings found by "
                "reflection, every setting with a cmdenv tag among them, both CmdEnv names of a two-name tag), loaded with validation (and without it "
@@ -23,7 +25,7 @@ PROP = dict(
                "(valid only after expansion / invalid only after expansion included) must be the validity of the value that is applied.",
     level_note="Bounded structural enumeration, not all strings: one literal per source, five variables (four set, one unset), at most two list "
                "elements / map entries, two config files, YAML only (TOML/JSON loaders and URL locations are not driven). Quick tier: in class "
-               "string all present sources use the same placement (1420 vectors); thorough: every placement per source (7360 vectors). "
+               "string all present sources use the same placement (1713 vectors); thorough: every placement per source, a literal-dollar placement only together with itself or plain text (7965 vectors). "
                "Readings adopted: an explicit empty flag / empty environment variable counts as undefined (only files may set the zero value); "
                "validation also judges file values that a flag or variable overrides, so for the verdict clause the sources below the winner are "
                "absent or plainly valid; a map given by two files may be replaced by the later file or merged per key (the statement leaves it open; a map given by flag/variable replaces); the flag "
@@ -37,7 +39,7 @@ PROP = dict(
         dict(kind="walk", name="Settings", module="Settings", pkg="config", test="TestVerifC29Settings",
              harness=["config/c29_settings_test.go"],
              cfg={"quick": "MC_Settings_q.cfg", "thorough": "MC_Settings_t.cfg"},
-             budget={"quick": 60, "thorough": 420}, maxwalk=2),
+             budget={"quick": 120, "thorough": 480}, maxwalk=2),
         dict(kind="tlc", name="SettingsIdeal", module="Settings",
              cfg={"quick": None, "thorough": "MC_Settings_ideal.cfg"}, workers=4, tiers=("thorough",)),
     ],
